@@ -255,6 +255,7 @@ def jobs(tier, seed):
     else:
         first3 = {"inf-const", "inf-back", "incbin", "star", "at-ram"}
         seqs = [s for s in seqs if len(s) < 3 or (len(set(s)) == 3 and s[0] in first3 and s[1] in first3 and s[2] in first3)]
+    seqs = seqs + [("incbin", "incbin"), ("incbin", "nop", "incbin")]      # the same file included again in one scope
     for rom in ("low", "high"):
         for s in seqs:
             if rom == "high" and len(s) > 1 and (tier == "quick" or not (set(s) & set(MOVES) or "incbin" in s or "inf-back" in s)):
